@@ -318,4 +318,3 @@ func mutClass(ms []string) []string {
 	return out
 }
 
-func (s *Sys) setupTSS() {}
